@@ -59,6 +59,8 @@ void precond_cases(Index n, const Pattern& p, const std::string& fname, std::fun
                  std::function<void(const std::string&, const Dense<DT>&, const std::vector<DT>&, const std::vector<DT>&)> oracle)
   {
     if(!begin(nm)) return;
+    { bool clean = uninit_free<DT>([&]() -> bool { CSR<DT> A0 = make_csr<DT>(n, n, p, "a", nullptr, 2.25); Filt f0 = mkfilter(); VT<DT> d0 = make_vec<DT>(n, "d", 0.5, 0.375), c0(n); auto s0 = mk(A0, f0); s0->init(); s0->apply(c0, d0); bool fin = true; for(Index i = 0; i < n; ++i) fin = fin && (H<DT>::sh(c0(i)) == H<DT>::sh(c0(i))); s0->done(); return fin; });
+      H<DT>::fact("apply into a fresh correction vector does not read uninitialised memory", clean, "uninitialised entries are read"); if(!clean) { H<DT>::end(); return; } }
     Dense<DT> DA; CSR<DT> A = make_csr<DT>(n, n, p, "a", &DA, 2.25); Filt filt = mkfilter();
     VT<DT> d = make_vec<DT>(n, "d", 0.5, 0.375), c(n); for(Index i = 0; i < n; ++i) c(i, H<DT>::var("cjunk" + str(i), 9.0 + double(i)));
     auto db = to_std(d);
